@@ -108,7 +108,9 @@ def case_bw(sp):
     p1, p2 = Prog(spec), Prog(spec)
     for p in (p1, p2):
         set_grad(p["a"], "a")
-    backward([p1[n] for n in outs], Constant(T(w)))
+    _, failed = valid_call(lambda: backward([p1[n] for n in outs], Constant(T(w))), cex, "defaulted_call_succeeds_like_the_explicit_one")
+    if failed:
+        return obs + failed
     backward([p2[n] for n in outs], Constant(T(w)), inputs=[p2[n] for n in sorted(ref)])
     for n in p1.leaf_names():
         g1, g2 = grad_list(p1[n]), grad_list(p2[n])
